@@ -81,7 +81,7 @@ static Reg r_bil("geoidbil", [](const Args& a) {
     double lat = 90 - iy * dlat, lon = ix * dlon; double v = g(lat, lon), ref = offset + scale * pixel_at(0, seed, w, ix, iy);
     if (!(std::fabs(v - ref) <= 64 * ulp(std::fabs(offset) + scale * 65535)) && nb++ < 3) bad("bilinear-node", "height at grid node differs from offset + scale*pixel: " + fmt(v) + " vs " + fmt(ref));
     if (iy + 1 < h) { // linear along the meridional edge, and continuous across the edge between cell ix-1 and ix
-      double lm = lat - dlat / 2, vm = g(lm, lon), v2 = g(lat - dlat, lon);
+      double lm = lat - dlat / 2, vm = g(lm, lon), v2 = g(std::fmax(-90.0, lat - dlat), lon);   // 90 - 26*(180/26) - ... can round to just below -90 (LatFix -> NaN): the node is the pole
       if (!(std::fabs(vm - (v + v2) / 2) <= 1e-9 * (1 + std::fabs(v))) && nb++ < 3) bad("bilinear-edge", "not linear along a cell edge");
       double e = dlon * 1e-9, vl = g(lm, lon - e), vr = g(lm, lon + e);
       if (!(std::fabs(vl - vr) <= 1e-6 * scale * 65535) && nb++ < 3) bad("bilinear-continuity", "jump across a cell boundary");
